@@ -172,7 +172,7 @@ def oracle(seed, tier):
                 size = rng.choice([0, 1, 5, 9, 17, rng.randrange(0, 40)])
                 thr, chunk = rng.choice([1, 6, 8, 100]), rng.choice([1, 3, 8])
             data = (bytes(range(256)) * (size // 256 + 1))[:size] if real_scale else bytes((j * 13 + 5) % 256 for j in range(size))
-            kind = rng.choice(['path', 'seekable', 'seekable-offset', 'nonseekable', 'nonseekable-short'])
+            kind = rng.choice(['path', 'seekable', 'seekable-offset', 'nonseekable', 'nonseekable-short', 'seekable-gzip'])
             proto = {'sign_reads': rng.random() < 0.4, 'rewinds': rng.choice([0, 0, 1, 2]),
                      'read_size': rng.choice([None, 1, 7, 64 * 1024])}
             if real_scale:
@@ -191,6 +191,16 @@ def oracle(seed, tier):
                 start = rng.randrange(0, size + 1)
                 src = io.BytesIO(data)
                 src.seek(start)
+            elif kind == 'seekable-gzip':
+                # a seekable stream with a file descriptor whose file is not the stream: gzip.open(path, 'rb')
+                import gzip
+                gz = os.path.join(tmpdir, 'src-%d.gz' % i)
+                with gzip.open(gz, 'wb') as fh:
+                    fh.write(data)
+                src = gzip.open(gz, 'rb')
+                if size and rng.random() < 0.4:
+                    start = rng.randrange(0, size + 1)
+                    src.seek(start)
             elif kind == 'nonseekable':
                 src = ShortReader(data, [])
             else:
@@ -209,6 +219,8 @@ def oracle(seed, tier):
             except Exception as e:   # noqa
                 err = e
             res.evaluations += 1
+            if res.enough():
+                break
             res.hit(kind)
             if err is not None:
                 res.violation('upload-failed:' + kind, wit, 'upload raised %r without any fault' % err)
@@ -246,6 +258,8 @@ def oracle_c11_realscale(seed, tier):
                              executor_cls=NonThreadedExecutor) as tm:
             tm.upload(ShortReader(data, []), 'b', 'k').result()
         res.evaluations += 1
+        if res.enough():
+            break
         sizes = [len(v[1]) for up in fake.uploads.values() for v in up['parts'].values()]
         bound = max(thr, chunk)
         res.nontrivial.add((thr, chunk, size))
